@@ -125,6 +125,129 @@ func (e *Engine) checkC14() []*Obligation {
 		if tryPos == token.NoPos {
 			continue
 		}
+		// 0. payload values are stable: a value hashed into the key must be the value the command
+		// computes with.  Every in-place change of a payload variable (assignment through it, or
+		// passing its slice/pointer to a function that may write it, e.g. sort.Strings) has to
+		// come before every other use of that variable; otherwise what is hashed differs from
+		// what was used (or will be used) to produce the output.
+		{
+			seenP := map[types.Object]bool{}
+			for _, o := range payload {
+				if seenP[o] || flagSets[o] {
+					continue
+				}
+				seenP[o] = true
+				if _, isOpt := optVars[o]; !isOpt {
+					continue
+				}
+				mentions := func(e ast.Expr) bool {
+					for _, x := range identsIn(info, e) {
+						if x == o {
+							return true
+						}
+					}
+					return false
+				}
+				isRef := func(e ast.Expr) bool { // o or *o, of a type through which a callee can write
+					e = ast.Unparen(e)
+					if st, ok := e.(*ast.StarExpr); ok {
+						if id, ok := ast.Unparen(st.X).(*ast.Ident); ok && info.ObjectOf(id) == o {
+							switch info.TypeOf(e).Underlying().(type) {
+							case *types.Slice, *types.Map, *types.Pointer:
+								return true
+							}
+						}
+						return false
+					}
+					if id, ok := e.(*ast.Ident); ok && info.ObjectOf(id) == o {
+						return true // the pointer itself
+					}
+					return false
+				}
+				var muts []ast.Node
+				var defPos token.Pos
+				ast.Inspect(fd.Body, func(n ast.Node) bool {
+					switch x := n.(type) {
+					case *ast.AssignStmt:
+						for _, l := range x.Lhs {
+							if id, ok := l.(*ast.Ident); ok && info.ObjectOf(id) == o {
+								if defPos == token.NoPos {
+									defPos = x.Pos()
+								} else {
+									muts = append(muts, x)
+								}
+							} else if mentions(l) {
+								if _, plain := l.(*ast.Ident); !plain {
+									// *o = v, (*o)[i] = v
+									if se, ok := l.(*ast.StarExpr); ok && mentions(se.X) {
+										muts = append(muts, x)
+									} else if ie, ok := l.(*ast.IndexExpr); ok && mentions(ie.X) {
+										muts = append(muts, x)
+									}
+								}
+							}
+						}
+					case *ast.CallExpr:
+						name := ""
+						switch f := x.Fun.(type) {
+						case *ast.Ident:
+							name = f.Name
+						case *ast.SelectorExpr:
+							if id, ok := f.X.(*ast.Ident); ok {
+								name = id.Name + "." + f.Sel.Name
+							}
+						}
+						switch name {
+						case "len", "cap", "append", "strings.Join", "encodePayload", "fmt.Sprintf", "fmt.Errorf", "fmt.Sprint":
+							return true
+						}
+						for _, a := range x.Args {
+							if isRef(a) {
+								muts = append(muts, x)
+							}
+						}
+					}
+					return true
+				})
+				bad := ""
+				for _, m := range muts {
+					// conditions of the if statements guarding the change only decide whether it happens
+					guards := map[ast.Node]bool{}
+					ast.Inspect(fd.Body, func(n ast.Node) bool {
+						if is, ok := n.(*ast.IfStmt); ok && is.Body.Pos() <= m.Pos() && m.End() <= is.Body.End() {
+							guards[is.Cond] = true
+						}
+						return true
+					})
+					ast.Inspect(fd.Body, func(n ast.Node) bool {
+						if n == nil || bad != "" {
+							return false
+						}
+						if n == m || guards[n] {
+							return false
+						}
+						if id, ok := n.(*ast.Ident); ok && info.ObjectOf(id) == o && id.Pos() < m.Pos() && id.Pos() > defPos {
+							// a read before the in-place change (the defining statement itself excluded)
+							if defStmtEnd(fd, defPos) < id.Pos() {
+								bad = fmt.Sprintf("%s is used at %s and then changed in place at %s before/after it is hashed into the key", o.Name(), posOf(pkg, id.Pos()), posOf(pkg, m.Pos()))
+							}
+						}
+						return true
+					})
+				}
+				ob := &Obligation{Name: fname + "/payload-value-stable:" + o.Name(), Kind: "reads-frame", Func: fname, Pos: posOf(pkg, tryPos),
+					Text:  fmt.Sprintf("the payload value %s is hashed in the state the command uses it in (%d in-place change(s), all before any use)", o.Name(), len(muts)),
+					Props: []string{"C14"}}
+				if bad == "" {
+					ob.Decided = "discharged"
+					ob.Result = SolverResult{Status: "unsat", Solver: "def-use"}
+				} else {
+					ob.Decided = "failed"
+					ob.Result = SolverResult{Status: "sat", Solver: "def-use", Raw: bad}
+				}
+				obls = append(obls, ob)
+			}
+		}
 		// option variables set by plain assignment of an option's value (e.g. *seqinPath = "-")
 		// 2. derivation: assignments before TryCache whose RHS mentions option/derived vars
 		tainted := func(o types.Object) bool {
@@ -435,4 +558,16 @@ func posOf(pkg *pkgT, p token.Pos) string {
 		f = f[i+6:]
 	}
 	return fmt.Sprintf("%s:%d", f, pos.Line)
+}
+
+// defStmtEnd returns the end of the statement starting at pos in fd's body.
+func defStmtEnd(fd *ast.FuncDecl, pos token.Pos) token.Pos {
+	end := pos
+	ast.Inspect(fd.Body, func(n ast.Node) bool {
+		if st, ok := n.(ast.Stmt); ok && st.Pos() == pos {
+			end = st.End()
+		}
+		return true
+	})
+	return end
 }
